@@ -57,5 +57,7 @@ def run(ctx: CheckContext):
     ut = "OpenPinch/analysis/utility_targeting.py"
     run_control(ctx, "C12/parallel-branches-merged", analyse, p.root, d, "candidate_id = id(candidate)", "candidate_id = (candidate.zone, candidate.name)", "DEDUP-ID", count=2)
     run_control(ctx, "C12/translated-zero-target", analyse, p.root, d, "if t_target is None or", "if not t_target or", "TRUTHY")
+    run_control(ctx, "C12/translated-below-zero-target", analyse, p.root, d, "if t_target is None or t_target == utility.t_supply:",
+                "if t_target is None or t_target <= 0 or t_target == utility.t_supply:", "ZERO-CMP")
     run_control(ctx, "C12/cold-side-wraps", analyse, p.root, ut, "start_row = max(pinch_row - 1, 0)", "start_row = pinch_row - 1", "WRAP")
     run_control(ctx, "C12/iter-without-ensure-sorted", analyse, p.root, sc, "    def __iter__(self):\n        self._ensure_sorted()\n", "    def __iter__(self):\n", "MEMO-M2")
